@@ -22,11 +22,14 @@ import (
 	"sort"
 	"strings"
 
+	kerrors "k8s.io/apimachinery/pkg/api/errors"
 	metav1 "k8s.io/apimachinery/pkg/apis/meta/v1"
 	"k8s.io/apimachinery/pkg/apis/meta/v1/unstructured"
 	"k8s.io/apimachinery/pkg/runtime"
 	"k8s.io/apimachinery/pkg/runtime/schema"
 	"k8s.io/apimachinery/pkg/types"
+	"sigs.k8s.io/controller-runtime/pkg/client"
+	"sigs.k8s.io/controller-runtime/pkg/client/apiutil"
 	"sigs.k8s.io/controller-runtime/pkg/reconcile"
 
 	"github.com/crossplane/crossplane-runtime/pkg/feature"
@@ -72,6 +75,7 @@ type c06XR struct {
 }
 
 type c06Env struct {
+	ID    int    `json:"id"`    // unique within the scenario; an XR-controller write stores it as status.observed
 	After int    `json:"after"` // applied right after call index `after` of the reconcile; -1 = before it starts
 	Act   string `json:"act"`   // xrTouch | xrRemove | xrDelete | claimDelete | claimTouch
 	Name  string `json:"name"`  // XR name (xr* actions)
@@ -92,14 +96,30 @@ type c06Read struct {
 	Deleting bool   `json:"deleting"`
 }
 
+// c06XRead: what the lagging cache served for one XR read (abstract content), recorded from the real run.
+type c06XRead struct {
+	Name     string `json:"name"`
+	Found    bool   `json:"found"`
+	Stale    bool   `json:"stale"` // an older state of that name than the stored one
+	Ref      string `json:"ref"`
+	Labeled  bool   `json:"labeled"`
+	Fin      bool   `json:"fin"`
+	Deleting bool   `json:"deleting"`
+	Status   bool   `json:"status"`
+	Gen      int    `json:"gen"` // status.observed
+	AbsAfter int    `json:"absAfter"` // stale reads: how often the name was absent between the served state and the stored one
+}
+
 type c06Rec struct {
-	Lag    int        `json:"lag"` // the cache serves the claim this many versions back (0 = fresh)
+	Lag    int        `json:"lag"`  // the cache serves the claim this many versions back (0 = fresh)
+	XLag   []int      `json:"xlag"` // the cache serves the k-th XR read of the reconcile this many states back
 	Faults []c06Fault `json:"faults"`
 	Env    []c06Env   `json:"env"`
 	// oracle, recorded from the real run
 	Read  c06Read  `json:"read"`
 	Up    string   `json:"up"`    // managed-fields upgrade patch: "" (none issued / not reached) | "ok" | "invalid"
 	Names []string `json:"names"` // name oracle: the names the generator drew during this reconcile, in order
+	XReads []c06XRead `json:"xreads"` // what each XR read of this reconcile returned, in order
 }
 
 type c06Scn struct {
@@ -278,7 +298,7 @@ func c06ApplyEnv(st *Store, e c06Env, tick *int) {
 			if !c06HasFin(u, c06XRFin) {
 				u.SetFinalizers(append(u.GetFinalizers(), c06XRFin))
 			}
-			u.Object["status"] = map[string]any{"observed": int64(*tick), "conditions": []any{map[string]any{"type": "Ready", "status": "True", "reason": "Available", "lastTransitionTime": "2023-11-14T22:13:20Z"}}}
+			u.Object["status"] = map[string]any{"observed": int64(e.ID), "conditions": []any{map[string]any{"type": "Ready", "status": "True", "reason": "Available", "lastTransitionTime": "2023-11-14T22:13:20Z"}}}
 		})
 	case "xrRemove":
 		st.Remove(xgk, "", e.Name)
@@ -334,7 +354,99 @@ func c06Outcome(o string) Outcome {
 }
 
 // c06NewReconciler wires the claim reconciler the way offered/reconciler.go does.
-func c06NewReconciler(st *Store, flags *feature.Flags, namer func(string) string) *claim.Reconciler {
+// c06Cache is the controller engine's cached client: every read goes through it. Claim reads
+// lag through simstore's own history (st.Lag); XR reads are served from the per-name state
+// history kept here, which (unlike simstore's) also remembers that a name was absent.
+type c06Cache struct {
+	*Store
+	xh     map[string][]*unstructured.Unstructured // states of each XR name, oldest first; nil = absent
+	seeded bool
+	rec    *c06Rec // current reconcile (lags in, oracle out)
+}
+
+// snapshot appends the current state of every XR name whose state changed.
+func (c *c06Cache) snapshot() {
+	cur := map[string]*unstructured.Unstructured{}
+	for _, u := range c.Store.OfKind(c06XRGVK.GroupKind()) {
+		cur[u.GetName()] = u
+	}
+	for n, u := range cur {
+		h, ok := c.xh[n]
+		if !ok && c.seeded {
+			h = []*unstructured.Unstructured{nil} // the name was absent until now
+		}
+		if len(h) == 0 || h[len(h)-1] == nil || h[len(h)-1].GetResourceVersion() != u.GetResourceVersion() {
+			h = append(h, u)
+		}
+		c.xh[n] = h
+	}
+	for n, h := range c.xh {
+		if _, ok := cur[n]; !ok && len(h) > 0 && h[len(h)-1] != nil {
+			c.xh[n] = append(h, nil)
+		}
+	}
+	c.seeded = true
+}
+
+func (c *c06Cache) Get(ctx context.Context, key client.ObjectKey, obj client.Object, opts ...client.GetOption) error {
+	gvk, err := apiutil.GVKForObject(obj, c.Store.Scheme())
+	if err != nil || gvk.GroupKind() != c06XRGVK.GroupKind() {
+		return c.Store.Get(ctx, key, obj, opts...)
+	}
+	n0 := len(c.Store.Log)
+	before := runtime.DeepCopyJSON(obj.(runtime.Unstructured).UnstructuredContent())
+	err = c.Store.Get(ctx, key, obj, opts...)
+	if len(c.Store.Log) == n0 || c.rec == nil {
+		return err // the process is dead: the call never happened
+	}
+	occ := len(c.rec.XReads)
+	rd := c06XRead{Name: key.Name}
+	last := &c.Store.Log[len(c.Store.Log)-1]
+	if last.Outcome != "ok" {
+		c.rec.XReads = append(c.rec.XReads, rd) // injected fault: nothing was read
+		return err
+	}
+	h, ok := c.xh[key.Name]
+	if !ok {
+		h = []*unstructured.Unstructured{nil}
+	}
+	lag := 0
+	if occ < len(c.rec.XLag) {
+		lag = c.rec.XLag[occ]
+	}
+	idx := len(h) - 1 - lag
+	if idx < 0 {
+		idx = 0
+	}
+	v := h[idx]
+	rd.Stale = idx != len(h)-1
+	for i := idx + 1; i < len(h)-1; i++ {
+		if h[i] == nil {
+			rd.AbsAfter++
+		}
+	}
+	if rd.Stale {
+		if v == nil {
+			err = kerrors.NewNotFound(schema.GroupResource{Group: gvk.Group, Resource: "xthings"}, key.Name)
+			obj.(runtime.Unstructured).SetUnstructuredContent(before) // a failed Get leaves the object untouched
+			last.Err = "notFound"
+		} else {
+			obj.(runtime.Unstructured).SetUnstructuredContent(runtime.DeepCopyJSON(v.Object))
+			err = nil
+			last.Err = ""
+		}
+	}
+	if err == nil {
+		u := &unstructured.Unstructured{Object: obj.(runtime.Unstructured).UnstructuredContent()}
+		a := c06AbsXR(u)
+		gen, _, _ := unstructured.NestedInt64(u.Object, "status", "observed")
+		rd.Found, rd.Ref, rd.Labeled, rd.Fin, rd.Deleting, rd.Status, rd.Gen = true, a.Ref, a.Labeled, a.Fin, a.Deleting, a.Status, int(gen)
+	}
+	c.rec.XReads = append(c.rec.XReads, rd)
+	return err
+}
+
+func c06NewReconciler(st client.Client, flags *feature.Flags, namer func(string) string) *claim.Reconciler {
 	ng := names.VerifNewNameGenerator(st, namer)
 	o := []claim.ReconcilerOption{}
 	if flags.Enabled(features.EnableBetaClaimSSA) {
@@ -377,7 +489,9 @@ func c06Run(s *c06Scn) (c06Obs, []Mon) {
 		}
 		return n
 	}
-	r := c06NewReconciler(st, flags, namer)
+	cache := &c06Cache{Store: st, xh: map[string][]*unstructured.Unstructured{}}
+	cache.snapshot()
+	r := c06NewReconciler(cache, flags, namer)
 
 	xgk, cgk := c06XRGVK.GroupKind(), c06ClaimGVK.GroupKind()
 	xgks, cgks := gkString(xgk), gkString(cgk)
@@ -435,7 +549,9 @@ func c06Run(s *c06Scn) (c06Obs, []Mon) {
 		rec.Read = c06Read{}
 		rec.Up = ""
 		rec.Names = []string{}
+		rec.XReads = []c06XRead{}
 		curRec = rec
+		cache.rec = rec
 		st.Lag = func(k objKey, versions int) int {
 			if k.GK != cgk {
 				return 0
@@ -493,15 +609,18 @@ func c06Run(s *c06Scn) (c06Obs, []Mon) {
 				}
 			}
 			checkStore(fmt.Sprintf("reconcile %d after call %d", ri, c.Index))
+			cache.snapshot()
 			for _, e := range rec.Env {
 				if e.After == c.Index {
 					c06ApplyEnv(st, e, &tick)
+					cache.snapshot()
 				}
 			}
 		}
 		for _, e := range rec.Env {
 			if e.After < 0 {
 				c06ApplyEnv(st, e, &tick)
+				cache.snapshot()
 			}
 		}
 		var res reconcile.Result
@@ -512,6 +631,7 @@ func c06Run(s *c06Scn) (c06Obs, []Mon) {
 			addMon("C06:panic", p)
 		}
 		st.Before, st.After, st.Lag = nil, nil, nil
+		cache.rec = nil
 		o := c06ORec{Calls: []c06Call{}}
 		for _, c := range st.Log[base:] {
 			obj := "claim"
@@ -591,10 +711,16 @@ func c06Gen(r *Rng, tier string) c06Scn {
 	names := append([]string{}, c06SeedNames...)
 	names = append(names, "c-1", "c-2")
 	nrec := r.Range(1, 4)
+	envID := 0
 	for i := 0; i < nrec; i++ {
-		rec := c06Rec{Faults: []c06Fault{}, Env: []c06Env{}}
+		rec := c06Rec{Faults: []c06Fault{}, Env: []c06Env{}, XLag: []int{}}
 		if r.Chance(1, 2) {
 			rec.Lag = r.Range(1, c06MaxLag)
+		}
+		if r.Chance(1, 3) {
+			for j, n := 0, r.Range(1, 4); j < n; j++ {
+				rec.XLag = append(rec.XLag, Pick(r, []int{0, 1, 1, 2, 3}))
+			}
 		}
 		for j, n := 0, Pick(r, []int{0, 1, 1, 1, 2}); j < n; j++ {
 			rec.Faults = append(rec.Faults, c06Fault{K: r.Intn(9), O: Pick(r, []string{"fail", "conflict", "crashBefore", "crashAfter", "crashAfter"})})
@@ -604,6 +730,8 @@ func c06Gen(r *Rng, tier string) c06Scn {
 			if strings.HasPrefix(e.Act, "xr") {
 				e.Name = Pick(r, names)
 			}
+			envID++
+			e.ID = envID
 			rec.Env = append(rec.Env, e)
 		}
 		s.Recs = append(s.Recs, rec)
@@ -623,9 +751,12 @@ func c06Cls(s *c06Scn, o c06Obs) string {
 			}
 		}
 	}
-	stale, crash, errf, env, created, upg, del := false, false, false, false, false, false, false
+	stale, crash, errf, env, created, upg, del, xstale := false, false, false, false, false, false, false, false
 	for i, rec := range s.Recs {
 		stale = stale || rec.Read.Stale
+		for _, x := range rec.XReads {
+			xstale = xstale || x.Stale
+		}
 		upg = upg || rec.Up != ""
 		if i < len(o.Recs) {
 			n := len(o.Recs[i].Calls)
@@ -654,9 +785,9 @@ func c06Cls(s *c06Scn, o c06Obs) string {
 		}
 		return "-"
 	}
-	// S stale claim read, C crash, F injected error/conflict, E environment step between two calls,
+	// S stale claim read, X stale XR read, C crash, F injected error/conflict, E environment step between two calls,
 	// A XR created/applied, D XR deleted, U managed-fields upgrade patch
-	return fmt.Sprintf("%s/%s/%s%s%s%s%s%s%s", s.Syncer, claimKind, b(stale, "S"), b(crash, "C"), b(errf, "F"), b(env, "E"), b(created, "A"), b(del, "D"), b(upg, "U"))
+	return fmt.Sprintf("%s/%s/%s%s%s%s%s%s%s%s", s.Syncer, claimKind, b(stale, "S"), b(xstale, "X"), b(crash, "C"), b(errf, "F"), b(env, "E"), b(created, "A"), b(del, "D"), b(upg, "U"))
 }
 
 func c06Clone(s c06Scn) c06Scn {
